@@ -99,7 +99,7 @@ def evaluate(ctx, cases):
                 lo, hi = {'uint8': (0, 255), 'uint16': (0, 65535), 'int16': (-32768, 32767), 'int8': (-128, 127)}[c['dt']]
                 m = float(np.max(np.abs(x))) or 1.0
                 x = np.round((x / m + 1) / 2 * (hi - lo) + lo).astype(c['dt'])
-            cf = lambda a: implutil.quiet(compute_features, a, c['fs'], tuple(c['f_range']), center_extrema=c['center'], threshold_kwargs={})
+            cf = lambda a: implutil.quiet(compute_features, a, c['fs'], implutil.frange(c), center_extrema=c['center'], threshold_kwargs={})
             try:
                 df = implutil.reuse_buffer(cf, x) if c.get('reuse') else cf(x)
             except Exception as e:
